@@ -19,10 +19,15 @@ func Main(args []string) int {
 	repo := fs.String("repo", "/repo", "repository root")
 	dump := fs.String("dump", "", "debug: funcs | fn:<substring>")
 	noEv := fs.Bool("no-evidence", false, "do not write evidence files")
+	goarch := fs.String("goarch", "", "analyse the build configuration of this GOARCH (default: host)")
+	replay := fs.String("replay", "", "re-evaluate the obligation recorded in this violation file against the current tree")
 	if err := fs.Parse(args); err != nil {
 		return 2
 	}
 	t0 := time.Now()
+	if *replay != "" && *prop == "" {
+		*prop = replayProp(*replay)
+	}
 	if *dump == "" && registry[*prop] == nil {
 		var ids []string
 		for id := range registry {
@@ -32,7 +37,7 @@ func Main(args []string) int {
 		fmt.Println("unknown property; have:", strings.Join(ids, " "))
 		return 2
 	}
-	p, err := Load(LoadConfig{Dir: *repo})
+	p, err := Load(LoadConfig{Dir: *repo, GOARCH: *goarch})
 	if err != nil {
 		fmt.Printf("VIOLATION property=%s replay=none rule=load :: %v\n", *prop, err)
 		return 1
@@ -99,18 +104,49 @@ func Main(args []string) int {
 		}
 		return 0
 	}
-	c := NewCtx(p, *prop, *tier)
-	c.Config = "linux/amd64"
-	for _, e := range p.LoadErrs {
-		c.Broken("load", "type-error", e)
-	}
-	func() {
-		defer func() {
-			if r := recover(); r != nil {
-				c.Broken("engine", "panic", fmt.Sprint(r))
-			}
+	run := func(p *Program, cfg string) *Ctx {
+		c := NewCtx(p, *prop, *tier)
+		c.Config = cfg
+		for _, e := range p.LoadErrs {
+			c.Broken("load", "type-error", e)
+		}
+		func() {
+			defer func() {
+				if r := recover(); r != nil {
+					c.Broken("engine", "panic", fmt.Sprint(r))
+				}
+			}()
+			registry[*prop](c)
 		}()
-		registry[*prop](c)
-	}()
+		return c
+	}
+	hostCfg := "linux/amd64"
+	if *goarch != "" {
+		hostCfg = "linux/" + *goarch
+	}
+	c := run(p, hostCfg)
+	if *replay != "" {
+		return replayObligation(c, *replay)
+	}
+	if *tier == "thorough" && *goarch == "" {
+		// second build configuration: a 64-bit target without the amd64-only files
+		// (pkg/sleep's Go commitSleep instead of the assembly one). 32-bit targets and
+		// arm64/riscv64 do not type-check (protocol/link/rawfile), independent of this tool.
+		p = nil
+		p2, err := Load(LoadConfig{Dir: *repo, GOARCH: "ppc64le"})
+		if err != nil {
+			c.Broken("load", "config:linux/ppc64le", err.Error())
+		} else {
+			c.Merge(run(p2, "linux/ppc64le"))
+		}
+		p2 = nil
+		sens := sensitivity(*prop, *repo, run)
+		c.Extra["sensitivity"] = sens
+		for _, sr := range sens {
+			if sr.Applied && !sr.Detected {
+				fmt.Printf("NOTE: sensitivity: seeded change %s applies to the current tree and is not reported by %s\n", sr.ID, *prop)
+			}
+		}
+	}
 	return c.Finish(t0, !*noEv)
 }
